@@ -2,7 +2,7 @@
     Only theorem statements, each closed by [exact] of a lemma from Proofs/.
     Everything is parametric in [sha256] and [hmac].  A history is a list of events of one route
     path in LOCK ORDER: [EReq now r] = one request = one atomic step (clock reading [now], tolerance
-    test and nonce cache under the cache mutex - nonceCache.admit); [EReload new] = one loadAuth.
+    test and nonce cache under the cache mutex - nonceCache.cache_admit); [EReload new] = one loadAuth.
     [admit_of s now r = Some (n, t)]: in state [s] the request passes the nonce step with trimmed
     nonce [n] and signed instant [t] (ns); a request Verify accepts is admitted
     ([C09_accepted_is_admitted]), so "never admitted twice" implies "never accepted twice". *)
